@@ -42,6 +42,7 @@ type Violation struct {
 	Pos     string    `json:"pos"`
 	Replay  []ndEvent `json:"nondet"`
 	Alt     [][]ndEvent `json:"alt_nondet,omitempty"`
+	Schedule []string `json:"schedule,omitempty"`
 	Notes   []string  `json:"notes,omitempty"`
 	Path    int       `json:"path"`
 }
@@ -466,6 +467,7 @@ func (x *Exec) violate(kind, msg, pos string) {
 	x.h.vioKeys[key] = true
 	v := Violation{Harness: x.h.Name, Kind: kind, Msg: msg, Pos: pos, Replay: x.modelReplay(), Path: x.h.Paths}
 	v.Alt = x.altModels()
+	v.Schedule = append([]string(nil), x.schedTrace...)
 	v.Notes = append(v.Notes, x.notes...)
 	if len(x.schedTrace) > 0 {
 		v.Notes = append(v.Notes, "schedule: "+strings.Join(x.schedTrace, " "))
